@@ -271,4 +271,66 @@ crate::list![
     c17_lines_slice_2,
     c17_lines_slice_3,
     c17_lines_get_2,
+    c17_stringbuf_seq,
 ];
+
+/// `StringBuf` accumulates what was pushed: after every push (chars of 1-2 bytes, a string) `as_string` returns
+/// exactly the bytes pushed so far, also when `as_string` was called before (no stale result) and when the push
+/// went through another handle of the same buffer. Shape fixed (push_char, read, push_char via an alias, read);
+/// the characters are symbolic (first below U+0800, second ASCII: three symbolic characters plus a
+/// push_string exhausted 16 GB).
+#[cfg_attr(kani, kani::proof)]
+#[cfg_attr(kani, kani::stub(std::sync::Mutex::lock, crate::stubs::mutex_lock_stub))]
+#[cfg_attr(kani, kani::unwind(10))]
+pub fn c17_stringbuf_seq() {
+    use roto::verif_api::StringBuf;
+    fn any_char2() -> char {
+        let x: u32 = any();
+        assume(x < 0x800);
+        match char::from_u32(x) {
+            Some(c) => c,
+            None => {
+                assume(false);
+                'a'
+            }
+        }
+    }
+    fn put(exp: &mut [u8; 8], n: &mut usize, c: char) {
+        // UTF-8 of a scalar value below 0x800, written out (no loop over a symbolic length)
+        let x = c as u32;
+        if x < 0x80 {
+            exp[*n] = x as u8;
+            *n += 1;
+        } else {
+            exp[*n] = 0xC0 | (x >> 6) as u8;
+            exp[*n + 1] = 0x80 | (x & 0x3F) as u8;
+            *n += 2;
+        }
+    }
+    fn check(b: &StringBuf, exp: &[u8; 8], n: usize) {
+        let s = b.clone().as_string();
+        let sb = s.as_bytes();
+        assert!(sb.len() == n, "as_string length is the number of bytes pushed");
+        let mut k = 0;
+        while k < n {
+            assert!(sb[k] == exp[k], "as_string content is what was pushed, in order");
+            k += 1;
+        }
+    }
+    let mut exp = [0u8; 8];
+    let mut n = 0usize;
+    let b = StringBuf::new();
+    let c1 = 'a';
+    let c2 = any_char2();
+    assume((c2 as u32) < 0x80);
+    b.clone().push_char(c1);
+    put(&mut exp, &mut n, c1);
+    check(&b, &exp, n);
+    let alias = b.clone();
+    alias.push_char(c2);
+    put(&mut exp, &mut n, c2);
+    check(&b, &exp, n);
+    cover!(c2 == 'z', "some_char_pushed");
+    cover!(true, "reached_end");
+    std::mem::forget(b);
+}
